@@ -21,7 +21,7 @@ type C01Case struct {
 }
 
 func genC01(t *rapid.T, tier string) C01Case {
-	c := C01Case{Cfg: core.GenConfig(t, tier, core.GenOpts{BigOneIn: 10})}
+	c := C01Case{Cfg: core.GenConfig(t, tier, core.GenOpts{BigOneIn: 10, Vals: core.ValKindsWithFloat})}
 	if rapid.IntRange(0, 11).Draw(t, "inmem") == 0 {
 		c.InMem = true
 		c.Cfg.BF = 16
